@@ -22,6 +22,18 @@ CHECKS = {
         "character per label, documents longer than the bound in (c).",
    ref='5 (C15)', technique='symbolic execution (symx) of pvl.grammar/lexer/exceptions with z3 deciding every branch; bounded'),
 }
+ 'C17': dict(
+   text="Bounded symbolic execution of the real decoder cascade, Token predicates and encoder quoting code on ONE "
+        "fully symbolic token text per (grammar, decoder) pair: every string of length 0-3 (quick) / 0-4 (thorough) "
+        "over the dialect's alphabet (latin-1 for PVL/ISIS, ASCII for ODL/PDS3, 'omni' for the default decoder: "
+        "length 0-2 / 0-3) for the stage/predicate consistency obligations and length 0-4 / 0-6 for the "
+        "writer obligation; plus every letter-case spelling of 19 keyword-like words and every digit assignment "
+        "of 23 numeric/temporal shapes. Obligations: decode_simple_value equals the documented cascade of the "
+        "separately callable stages; Token.is_* agree with the stages, are pairwise exclusive, and numeric/temporal "
+        "text is never an unquoted string or parameter name; encode_string(s) returns s bare only if it decodes to "
+        "the identical str and otherwise a quoted form that decodes to s (modulo ODL white-space folding) or raises "
+        "ValueError. Outside: longer free strings, dateutil (absent).",
+   ref='5 (C17)', technique='symbolic execution (symx) of pvl.decoder/token/encoder with z3 deciding every branch; bounded string length'),
 NA_REASON = "check not built yet (construction in progress, see DESIGN.md section 8)"
 
 checks = []
